@@ -148,6 +148,7 @@ type VMModel struct {
 	Problems                  []string
 	EnvParam, ProgParam       types.Object
 	Defs                      *LocalDefs // single-definition locals of package vm (matchers look through them)
+	roles                     map[string]*types.Var
 }
 
 // stack/bytecode/... field roles of the VM struct, found by type and use.
@@ -375,7 +376,99 @@ func (m *VMModel) roleField(role string) *types.Var {
 	if f := m.Fields[role]; f != nil {
 		return f
 	}
-	return nil
+	if m.roles == nil {
+		m.inferRoles()
+	}
+	return m.roles[role]
+}
+
+// RoleField is roleField for clients.
+func (m *VMModel) RoleField(role string) *types.Var { return m.roleField(role) }
+
+// inferRoles finds, when the fields are not called `limit` and `memory`, the budget pair by
+// use: the limit is the int field assigned from a package-level variable in a *VM method; the
+// counter is the other int field compared with it in a condition.
+func (m *VMModel) inferRoles() {
+	m.roles = map[string]*types.Var{}
+	info := m.Prog.Pkg("vm").TypesInfo
+	fieldOf := func(e ast.Expr) *types.Var {
+		sel, ok := Unparen(e).(*ast.SelectorExpr)
+		if !ok {
+			return nil
+		}
+		s := info.Selections[sel]
+		if s == nil || s.Kind() != types.FieldVal {
+			return nil
+		}
+		f, _ := s.Obj().(*types.Var)
+		for _, mf := range m.Fields {
+			if mf == f {
+				return f
+			}
+		}
+		return nil
+	}
+	isInt := func(f *types.Var) bool {
+		b, ok := f.Type().Underlying().(*types.Basic)
+		return ok && b.Kind() == types.Int
+	}
+	var limit *types.Var
+	for _, fd := range m.Prog.FuncDecls("vm") {
+		if fd.Body == nil || core.RecvName(fd) != m.VMType.Obj().Name() {
+			continue
+		}
+		ast.Inspect(fd.Body, func(n ast.Node) bool {
+			as, ok := n.(*ast.AssignStmt)
+			if !ok || len(as.Lhs) != len(as.Rhs) || as.Tok != token.ASSIGN {
+				return true
+			}
+			for i, l := range as.Lhs {
+				f := fieldOf(l)
+				if f == nil || !isInt(f) {
+					continue
+				}
+				if id, ok := Unparen(as.Rhs[i]).(*ast.Ident); ok {
+					if v, ok := info.Uses[id].(*types.Var); ok && v.Parent() == m.Prog.Pkg("vm").Types.Scope() {
+						limit = f
+					}
+				}
+			}
+			return true
+		})
+	}
+	if limit == nil {
+		return
+	}
+	m.roles["limit"] = limit
+	for _, fd := range m.Prog.FuncDecls("vm") {
+		if fd.Body == nil || core.RecvName(fd) != m.VMType.Obj().Name() {
+			continue
+		}
+		ast.Inspect(fd.Body, func(n ast.Node) bool {
+			is, ok := n.(*ast.IfStmt)
+			if !ok {
+				return true
+			}
+			hasLimit := false
+			var others []*types.Var
+			ast.Inspect(is.Cond, func(c ast.Node) bool {
+				if e, ok := c.(ast.Expr); ok {
+					if f := fieldOf(e); f != nil {
+						if f == limit {
+							hasLimit = true
+						} else if isInt(f) {
+							others = append(others, f)
+						}
+					}
+				}
+				return true
+			})
+			if hasLimit && len(others) == 1 && m.roles["memory"] == nil {
+				m.roles["memory"] = others[0]
+			}
+			return true
+		})
+	}
 }
 
 func (m *VMModel) isLenMinus(info *types.Info, e ast.Expr, field string, k int) bool {
